@@ -12,6 +12,8 @@ SCENARIOS = {
     "2x1_text_plain": {"deflate": False, "threads": {"A": [["send_text", P("A", 0)]], "B": [["send_text", P("B", 0)]]}},
     "2x2_plain": {"deflate": False, "threads": {"A": [["send_text", P("A", 0)], ["send_binary", P("A", 1)]],
                                                  "B": [["send_text", P("B", 0)], ["send_ping", "B-1:ping"]]}},
+    "3x1_all_compressed_deflate": {"deflate": True, "threads": {"A": [["send_text", P("A", 0)]], "B": [["send_binary", P("B", 0)]],
+                                                                "C": [["send_text", P("C", 0)]]}},
     "2x1_text_deflate": {"deflate": True, "threads": {"A": [["send_text", P("A", 0)]], "B": [["send_text", P("B", 0)]]}},
     "2x1_text_binary_deflate": {"deflate": True, "threads": {"A": [["send_text", P("A", 0)]], "B": [["send_binary", P("B", 0)]]}},
     "2x1_text_ping_deflate": {"deflate": True, "threads": {"A": [["send_text", P("A", 0)]], "B": [["send_ping", "B-0:ping"]]}},
@@ -89,7 +91,8 @@ SCENARIOS.update({
 })
 BOUND2 = ["2x1_text_plain", "2x1_text_deflate", "2x1_text_binary_deflate", "2x1_text_ping_deflate"]
 FIRST_USE = ["2x1_text_deflate", "2x1_text_deflate_nct", "2x2_deflate_nct"]
-IN_WRITE = ["2x2_plain", "close_vs_2_sends", "3x1_deflate", "send_ping_close", "close_close_send"]
+IN_WRITE = ["2x2_plain", "close_vs_2_sends", "3x1_deflate", "send_ping_close", "close_close_send", "3x1_all_compressed_deflate"]
+PAIRS_AT_POINTS = []      # (a pair sweep at write / lock points exists but is switched off: cost without a catch so far)
 IN_WRITE_POINTS = ("sendall.mid", "lock.acquire", "cond.wait", "cond.notify")
 FIRST_USE_NARROW = ["2x2_deflate_nct"]
 EARLY = 24
@@ -256,6 +259,10 @@ class C11(Prop):
                                     # third preemption at every later write / lock point
                                     yield {"scn": name, "order": list(order), "first": [step - 1, t], "chain2": True,
                                            "chain3": True}
+                                    if name in PAIRS_AT_POINTS:
+                                        # ... and every PAIR of preemptions that both sit at a write / lock / condition point
+                                        yield {"scn": name, "order": list(order), "first": [step - 1, t], "sweep2": True,
+                                               "sweep2_in": "<points only>"}
                                 else:
                                     yield {"scn": name, "order": list(order), "first": [step - 1, t], "sweep2": True}
         out = [Enumeration("all_orders_x_single_preemptions" + ("_and_pairs" if bound2 else ""), cases, exhaustive=True)]
